@@ -1,6 +1,7 @@
 package engine
 
 import (
+	cryptorand "crypto/rand"
 	"crypto/sha256"
 	"encoding/hex"
 	"fmt"
@@ -242,6 +243,11 @@ func Execute(p *Plan, scratch string) (res *Result) {
 	// on them: pin the global source so that the count of scheduling points is a
 	// function of the plan alone.
 	rand.Seed(p.Seed)
+	// crypto/rand is a seam too (a change that names scratch files after random
+	// bytes made runs unrepeatable): its Reader is a variable
+	savedCrypto := cryptorand.Reader
+	cryptorand.Reader = rand.New(rand.NewSource(p.Seed ^ 0x63727970))
+	defer func() { cryptorand.Reader = savedCrypto }()
 	sim := simrt.NewSim(p.Seed^0x5eed, p.Config.Policy, p.Schedule, p.Replay, budget)
 
 	switch p.Config.Mode {
